@@ -17,7 +17,7 @@ import corankco.utils as U
 
 ID = "C18"
 ENVS = ["absent"]
-RUNS = {"quick": 32000, "thorough": 320000}
+RUNS = {"quick": 64000, "thorough": 640000}
 RULE = ("case = (2-4 ranking<->text round trips in brace/bracket notation with whitespace and name prefix, one dataset "
         "write/read round trip on the simulated filesystem with at most one injected fault, 4-10 fuzz texts over the "
         "format's alphabet); distinct = distinct case digest; non-trivial = a fault fired inside the write or a "
